@@ -2976,7 +2976,22 @@ impl CanonicalizeContext {
 						},
 						Some(offsets) => {
 							let start_of_mapping = char_mapping[offsets.table];
-							if start_of_mapping == 0 {ch} else {shift_char(start_of_mapping + offsets.ch)}
+							if start_of_mapping == 0 {
+								// the only double-struck Greek letters in Unicode are in the Letterlike Symbols block
+								if char_mapping[0] == 0x1D538 {
+									match ch {
+										'Γ' => 'ℾ',
+										'γ' => 'ℽ',
+										'Π' => 'ℿ',
+										'π' => 'ℼ',
+										_   => ch,
+									}
+								} else {
+									ch
+								}
+							} else {
+								shift_char(start_of_mapping + offsets.ch)
+							}
 						}
 					}
 				)
